@@ -25,7 +25,9 @@ EXPECTED_PROBES = ['string-channel', 'index-file', 'append-session', 'rejected-c
 def generate(rng, tier):
     prog = wgen.gen_program(rng)
     sink = rng.choice(['simpath', 'simpath', 'simstream', 'bytesio', 'realpath'])
-    return {'program': prog, 'sink': sink, 'index': rng.random() < 0.5}
+    return {'program': prog, 'sink': sink, 'index': rng.random() < 0.5,
+            # the data file's name: an index file belongs beside it under <name>_index whatever the name looks like
+            'fname': rng.choice(['out.tdms'] * 4 + ['OUT.TDMS', 'capture', 'out.tdms.part', 'my data.tdms', 'run.1.dat'])}
 
 
 def prog_sig(prog):
@@ -96,6 +98,9 @@ def check_trace(tr, st, sink, with_index, res, tagp='C08'):
     except Structural as exc:
         if not out:
             out.append(V(tagp + '.segment-invalid', 'whole-file parse: %s' % exc.what, **exc.sig))
+    if with_index and tr.index is None and segs and not out:
+        out.append(V(tagp + '.index-missing', 'an index file was requested and %d segment(s) were written, but there is no '
+                     'index file beside the data file (<data file name>_index, where readers look for it)' % len(segs)))
     if with_index and tr.index is not None and not out:
         exp = b''.join(b'TDSh' + data[s['pos'] + 4:s['data_pos']] for s in segs)
         if tr.index != exp:
@@ -114,7 +119,7 @@ def execute(case):
         res.probe('append-session')
     with store(record=False) as st:
         try:
-            tr = wexec.run_program(st, prog, case['sink'], case['index'])
+            tr = wexec.run_program(st, prog, case['sink'], case['index'], name=case.get('fname', 'out.tdms'))
         except Exception as exc:
             res.violations.append(V('C08.writer-raises', 'outside write_segment: %s: %s' % (type(exc).__name__, exc),
                                     exc=type(exc).__name__))
